@@ -474,6 +474,9 @@ fn run_one(cfg: Config, bound: usize, cap_exec: u64) -> RunOut {
 
 pub fn run(tier: Tier) -> Report {
     let mut rep = Report::new();
+    // the publish that matters sits in the housekeeping arm of the real loop: with a subscriber that never
+    // reads (either topic), every pass still completes
+    crate::realx::run_for(&mut rep, "C20", tier.is_quick());
     let cfgs = configs(tier);
     let cap_exec = if tier.is_quick() { 400_000 } else { 20_000_000 };
     let outs = par_map(cfgs.len(), 16, |i| run_one(cfgs[i].0, cfgs[i].1, cap_exec));
@@ -538,6 +541,9 @@ pub fn run(tier: Tier) -> Report {
 }
 
 pub fn replay(v: &Value) -> Result<(), String> {
+    if let Some(r) = crate::realx::replay_for("C20", v) {
+        return r;
+    }
     let cfg = Config { h: v["harness"].as_u64().unwrap_or(1) as u8, cap: v["capacity"].as_u64().unwrap_or(1) as usize };
     let prefix: Vec<usize> = v["choices"].as_array().map(|a| a.iter().map(|x| x.as_u64().unwrap_or(0) as usize).collect()).unwrap_or_default();
     let b = build(cfg);
